@@ -1,6 +1,9 @@
 """GenIdentDialect.v (Tie A for C09): per dialect, the identifier quote character and quoting style, read from
 sql/dialect.rs on every run (trait defaults of DialectHandler, the overrides of each impl block, the
-Dialect -> handler map), plus the name-generator prefixes of sql/pq/context.rs.  Fails closed."""
+Dialect -> handler map), plus the name-generator prefixes of sql/pq/context.rs.
+Also pins, on code text with comments / string contents / #[cfg(prqlc_verif)] hook items blanked, every function that
+Model/NameGen.v mirrors (gen_table_name, assign_names with the reserved set, RelVarNameAssigner, ensure_column_name, the
+anchor_split step, translate_select_item's alias loop) and the inventory of all calls of the two generators.  Fails closed."""
 import re
 
 from ..common import gen_write
